@@ -1,7 +1,7 @@
 """C21 — accounts never end a transaction group below minimum balance.
 Tie T (Gen.Fees.MinBalance regenerated from data/basics/userBalance.go) + C (shared LedgerCore harness, profile c21) + monitor on
 the implementation's outputs alone: after every accepted group every account whose record changed, other than fee sink, rewards
-pool and state-proof sender, is all-zero or holds (with pending rewards) at least MinBalance·(1 + its own TotalAssets)."""
+pool and state-proof sender, is all-zero or holds (with pending rewards) at least MinBalance·(1 + the number of assets it holds / counts)."""
 import common, lcore
 
 
@@ -24,10 +24,11 @@ def monitor(case):
                     continue
                 if lcore.acct_zero(rec):
                     continue
-                need = min_balance(st["mb"], int(rec[5]))
+                nh = sum(1 for (_, w) in cur.hold if w == a)      # the assets it really holds (= its TotalAssets counter on correct code, C22)
+                need = min_balance(st["mb"], max(int(rec[5]), nh))
                 have = lcore.bal_wp(rec, st["level"], st["unit"])
                 if have < need:
-                    return idx, "account %d was modified by an accepted group and holds %d < min balance %d (%s assets)" % (a, have, need, rec[5])
+                    return idx, "account %d was modified by an accepted group and holds %d < min balance %d (%s assets counted, %d held)" % (a, have, need, rec[5], nh)
         elif kind == "garbled":
             return idx, "unparseable harness output " + out[:120]
     return None
